@@ -687,12 +687,18 @@ class Facts:
                     elif not t.get("local", False):
                         # foreign generic callee instantiated with a local type: it may call any
                         # trait method implemented for that type (Serialize, Clone, Ord, Default, ...)
+                        mentioned = set()
                         for g in t.get("gen", []):
                             for m in re.finditer(r"([a-z_][\w]*(?:::[\w]+)+)", g):
-                                for im in self._trait_impls_of().get(m.group(1), ()):
+                                if m.group(1) in self.adts:
+                                    mentioned.add(m.group(1))
+                        ti = self._trait_impls_of()
+                        for adt in mentioned:
+                            for im in ti.get(adt, ()):
+                                # only impls whose header mentions no local type outside this call's
+                                # type arguments (e.g. TryFrom<NetworkFilter> for CbRule needs both)
+                                if self._ti_hdr[im] <= mentioned:
                                     cg[name].add(im)
-                            for m in re.finditer(r"\{closure@", g):
-                                pass
                     for a in t["args"]:
                         self._ops_refs(a, cg[name])
                     # generic args naming closures / fn items
@@ -707,15 +713,19 @@ class Facts:
         """local ADT path -> names of local trait-impl methods whose Self type is that ADT"""
         if getattr(self, "_ti", None) is None:
             ti = defaultdict(set)
+            self._ti_hdr = {}
             for n, f in self.fns.items():
                 st = f.j.get("impl_self")
                 if st and f.j.get("impl_trait"):
                     # index by every local ADT mentioned in the impl header (Self type and trait
                     # arguments, e.g. `impl From<WireFmt> for (Blocker, Cache)`)
                     hdr = st + " " + n.split("::{closure")[0]
+                    hs = set()
                     for m in re.finditer(r"([a-z_][\w]*(?:::[\w]+)+)", hdr):
                         if m.group(1) in self.adts:
                             ti[m.group(1)].add(n)
+                            hs.add(m.group(1))
+                    self._ti_hdr[n] = hs
             self._ti = ti
         return self._ti
 
